@@ -605,6 +605,11 @@ def C19(tier):
                 bounds="all well-formed corridors of 1..3 rectangles with left/right edges on a grid (x10): K=2 grid 0..3 with heights {20,20},{10,30},{30,10}; K=3 grid %s; "
                        "symbolic: x of the start point on the top side of the first and of the end point on the bottom side of the last rectangle, strictly between "
                        "the corners (as phase5 calls it); panic sites included" % nm(q, "0..2 heights {20,20,20}", "0..5 heights {20,20,20}, 0..3 heights {10,30,20},{30,10,10}; K=2 grid 0..5 heights {10,40},{40,10}"))]
+    corner = corridors(1, 1, [[20]])
+    obs.append(dict(name="shortest-corner-class", pkg="internal/geom", func="Harness_C19", consts={"OPEN": 2, "PANICS": 1}, cubes=corner, enctimeout=60, qtimeout=60, loop=48,
+                    replay_timeout=15, validate_cubes=0,
+                    bounds="input class of known finding G11c only: start or end point exactly on a corner of its rectangle (the single-rectangle corridor [0,10]x[0,20]); "
+                           "every failure inside this class is the listed finding"))
     return dict(obligations=obs)
 
 
